@@ -418,6 +418,38 @@ def element_specs():
         B=COMMON_B + STR_B + [("scalar_with_group_key", lambda d: (5, {"group": [{}]})),
                               ("iterable_without_group", lambda d: ([1, 2], {"n": 1}))],
         doc="MapGroup(map_scalars=False): values with context.group and iterable data are mapped, scalars pass"))
+    # further configurations of the same elements (same sample values)
+    by = dict((e.name, e) for e in out)
+
+    def variant(base, name, make, doc, prepare=None):
+        b = by[base]
+        out.append(ElementSpec(name, make, A=b.A, B=b.B, prepare=prepare or b.prepare, is_async=b.is_async,
+                               owner=b.owner, doc=doc))
+
+    def _prep_write(d):
+        _write_file(os.path.join(d, "out", "f1.txt"), "text one")       # same content as the "named" sample
+        _write_file(os.path.join(d, "out", "output.txt"), "older content")
+    variant("ToCSV", "ToCSV_options",
+            lambda d: lena.output.ToCSV(separator=";", header="x;y", duplicate_last_bin=False, row_end=" \\\\"),
+            "ToCSV with separator, header, row_end, duplicate_last_bin=False")
+    variant("Write", "Write_existing", lambda d: lena.output.Write(os.path.join(d, "out"), verbose=False),
+            "Write into a directory where some of the files already exist (same / different content)",
+            prepare=_prep_write)
+    variant("Write", "Write_overwrite",
+            lambda d: lena.output.Write(os.path.join(d, "out"), verbose=False, overwrite=True),
+            "Write(overwrite=True) with existing files", prepare=_prep_write)
+    variant("PDFToPNG", "PDFToPNG_overwrite", lambda d: lena.output.PDFToPNG(format="jpeg", overwrite=True, verbose=False),
+            "PDFToPNG(format=jpeg, overwrite=True)")
+    variant("HistToGraph", "HistToGraph_middle",
+            lambda d: lena.structures.HistToGraph(get_coordinate="middle", field_names=("m", "n"), scale=True),
+            "HistToGraph(get_coordinate=middle, field_names, scale=True)")
+    variant("MapBins", "MapBins_keep_context",
+            lambda d: lena.structures.MapBins(lambda x: (x + 1, {"mapped": True}), select_bins=int,
+                                              drop_bins_context=False),
+            "MapBins(drop_bins_context=False) with a sequence that adds context")
+    variant("LaTeXToPDF", "LaTeXToPDF_overwrite",
+            lambda d: lena.output.LaTeXToPDF(verbose=0, overwrite=True, create_command=_stub_command),
+            "LaTeXToPDF(overwrite=True): every tex value is handed to a process")
     return out
 
 
